@@ -197,12 +197,12 @@ def run_case(case):
                       "msg": "%d of %d directions not smooth enough to decide (alphabet sits on a kink)" % (und, ndir)})
     return {"fail": fails, "evals": evals, "undecided": und, "edges": 0,
             "outcome": [float("%.8e" % exc), float("%.6e" % np.abs(vm).sum())],
-            "info": {"worst_err": worst, "directions": ndir, "ngrids": int(ks.grids.weights.size)}}
+            "info": {"worst_err": worst / scale, "directions": ndir, "ngrids": int(ks.grids.weights.size)}}
 
 
 def finish(tier, seed, cases, results):
     pts = [{n: c[n] for n in SPACE.names} for c in cases]
     worst = max([r.get("info", {}).get("worst_err", 0.0) for r in results] + [0.0])
-    return {"coverage": {"transitions": max(SPACE.count_edges(pts), 1), "worst_discrepancy": worst,
-                         "tolerance": TAU, "dimensions": {n: SPACE.values[n] for n in SPACE.names},
+    return {"coverage": {"transitions": max(SPACE.count_edges(pts), 1), "worst_discrepancy_relative_to_max(1,|vmat|)": worst,
+                         "tolerance_relative_to_max(1,|vmat|)": TAU, "dimensions": {n: SPACE.values[n] for n in SPACE.names},
                          "completed_deviation_bound": 2 if tier == "thorough" else 1}}
